@@ -334,7 +334,7 @@ pub fn main() {
         engine::finish_replay(PROP, p, r);
     }
     let exh = exhaustive();
-    let random_cases = args.scale(24_000, 20) as u32;
+    let random_cases = args.scale(100_000, 8) as u32;
     let acc = engine::parallel(&args, PROP, |w, workers, acc| {
         for (i, c) in exh.iter().enumerate() {
             if i % workers == w {
